@@ -104,6 +104,17 @@ func (h *NFSProcedureHandler) handleSetattr(body io.Reader, reply *RPCReply, aut
 		return nfsErrorWithWcc(reply, mapError(err)), nil
 	}
 
+	// The handle of a symbolic link denotes the link, never what it points to, and the
+	// backend's Chmod and Truncate follow links: applied here they would change the target
+	// while only the link's cache entries are invalidated. As other NFS servers do, ignore a
+	// mode update on a link and refuse a size.
+	if preAttrs.Mode&os.ModeSymlink != 0 {
+		if sattr.SetSize {
+			return nfsErrorWithWcc(reply, NFSERR_INVAL), nil
+		}
+		sattr.SetMode = false
+	}
+
 	// R8: Enforce sattrguard3 - compare guard ctime with current ctime
 	if guardCheck != 0 {
 		// ctime is represented as mtime in this implementation
